@@ -187,6 +187,58 @@ def auth_case(item):
                         return 'unwrap failed with %#x but output %s holds octets [%d,%d) of the unauthenticated decryption of the token' % (res['ret'], name, i, i + 8)
     return None
 
+def null_cases():
+    """NULL-pointer sweep (the headers' module-level clause: ERR_BAD_INPUT unless all input pointers of a high-level function are
+    valid): for every plain catalogue function one accepted corpus case, and each pointer argument in turn passed as NULL with its
+    length kept.  Pointers that some corpus / sweep case passes as NULL, or whose buffer is empty in the base case, are optional and skipped."""
+    base = {}; optional = {}
+    allc = list(corpora.all_cases('quick')) + sweep_cases('quick')
+    for f, c in allc:
+        fn = cat.CAT.get(f)
+        if fn is None or getattr(fn, 'impl', None) is not None or fn.ret != 'err' or getattr(fn, 'nondet', False) or not fn.args:
+            continue
+        for spec in fn.args:
+            if spec[0] in ('in', 'str', 'u16in') and c.get(spec[1]) is None:
+                optional.setdefault(f, set()).add(spec[1])
+        if f not in base and not any(k.startswith('_') for k in c) and fn.ref is not None and (fn.ref(c) or {}).get('ret') == 0:
+            base[f] = c
+    out = []
+    for f, c in sorted(base.items()):
+        fn = cat.CAT[f]
+        for spec in fn.args:
+            kind, name = spec[0], spec[1]
+            if kind not in ('in', 'out', 'io', 'u16in', 'u16out', 'str', 'outsz') or name in optional.get(f, ()) or name in getattr(fn, 'nullable', ()):
+                continue
+            if kind in ('in', 'io', 'u16in') and not c.get(name):
+                continue          # empty buffer: NULL is a valid pointer for zero octets (mem.h)
+            if kind in ('out', 'u16out') and cat._size(spec, c) == 0:
+                continue
+            out.append((f, dict(c, _null=[name])))
+    return out
+
+def null_case(item):
+    f, c = item
+    L = common.lib(CFG)
+    fn = cat.CAT[f]
+    name = c['_null'][0]
+    kind = [s[0] for s in fn.args if s[1] == name][0]
+    res = common.run_fn(L, f, c, fill=0xC3)
+    ok = {109}
+    if name == 'params':
+        ok.add(502)       # dstu / g12s report a parameter set that cannot be read as ERR_BAD_PARAMS: an error class their headers name for params
+    if kind == 'str':
+        # str.h treats NULL as the empty string (strLen(NULL) = 0, strIsValid(NULL) = TRUE): the code for "" is documented behaviour too
+        c2 = {k: v for k, v in c.items() if k != '_null'}; c2[name] = ''
+        ok.add(common.run_fn(L, f, c2, fill=0xC3)['ret'])
+        ok.discard(0)
+    if res['ret'] == 0:
+        return 'pointer %s = NULL: the call returns ERR_OK' % name
+    if res['ret'] not in ok:
+        return 'pointer %s = NULL: the call returns %#x, the headers document ERR_BAD_INPUT' % (name, res['ret'])
+    # (what a failing call leaves INSIDE its output buffers is not documented -- the *Std loaders zero the structure first -- and is not
+    # judged; a write OUTSIDE an exact-size buffer is an AddressSanitizer report)
+    return None
+
 def sweep_case(item):
     msg, ret = common.check_ref_case(item, CFG)
     return msg, ret
@@ -225,6 +277,17 @@ def sub(tier, what, out):
         if r[0]:
             add('sweep:%s' % f, rec, '%s: %s  [%s]' % (f, r[0], cat.short(c)))
     result['parts']['argument_sweeps'] = dict(states=len(sw), transitions=len(sw), traces_validated_against_impl=len(sw), evaluations=len(sw))
+    # 2b. NULL-pointer sweep
+    nc = null_cases()
+    res = vf.pmap(null_case, nc, case_timeout=120)
+    for (f, c), r in zip(nc, res):
+        rec = {'cfg': CFG, 'kind': 'null', 'fn': f, 'case': cat.enc_case(c)}
+        if isinstance(r, dict):
+            k, m = C07.classify(r.get('stderr', '') or r.get('harness_error', '') or r.get('crash', ''))
+            add('null:%s:%s:%s' % (k, f, c['_null'][0]), rec, '%s with %s = NULL: %s [%s]' % (f, c['_null'][0], m, cat.short(c))); continue
+        if r:
+            add('null:%s:%s' % (f, c['_null'][0]), rec, '%s: %s  [%s]' % (f, r, cat.short(c)))
+    result['parts']['null_pointer_sweep'] = dict(states=len(nc), transitions=len(nc), traces_validated_against_impl=len(nc), evaluations=len(nc), functions=len(set(f for f, _ in nc)))
     # 3. no release on failed authentication
     au = auth_cases(tier)
     res = vf.pmap(auth_case, au, case_timeout=120)
@@ -283,6 +346,11 @@ def replay(rec):
         if isinstance(r, dict):
             return C07.classify(r.get('stderr', '') or r.get('crash', ''))[1]
         return r[0]
+    if k == 'null':
+        r = vf.pmap(null_case, [(rec['fn'], case)], nproc=1)[0]
+        if isinstance(r, dict):
+            return C07.classify(r.get('stderr', '') or r.get('crash', ''))[1]
+        return r
     if k == 'auth':
         r = vf.pmap(auth_case, [(rec['fn'], case, bytes.fromhex(rec['plain']), rec['field'], rec['bit'])], nproc=1)[0]
         if isinstance(r, dict):
